@@ -1,3 +1,16 @@
+/- C08: whatever bytes a decoder accepts, re-encoding the result reproduces those bytes. -/
 import FinProto.Obl.Side
+import FinProto.Props.DecEnc
 namespace FinProto.Obl
+open FinProto
+set_option linter.defProp false
+
+theorem C08_mirror : Gen.env.mirrorOK = true := gen_mirrorOK
+theorem C08_framesTop : Gen.env.framesTop = true := gen_framesTop
+theorem C08_repo : ∀ f ty b v r, Gen.env.isFrame ty = false → decTy Gen.env f ty b = .ok (v, r) →
+    ∃ c, b = c ++ r ∧ ∀ pre, encTy Gen.env f ty v pre = .ok (v, pre ++ c) :=
+  dec_enc Gen.env gen_mirrorOK gen_keysOK gen_framesTop
+def C08_frames := @dec_enc_frame Gen.env gen_mirrorOK gen_keysOK gen_framesTop
+def C08_frames_iff := @dec_enc_frame_iff Gen.env gen_mirrorOK gen_keysOK gen_framesTop
+
 end FinProto.Obl
